@@ -498,11 +498,11 @@ def passSame (s : Src) : Res :=
   { ident := .same, dt := s.dt, const := s.ts.const, hasCreator := s.ts.hasCreator
     hasGrad := s.ts.hasGrad, hasBase := s.ts.hasBase, extended := false }
 
-/-- `arr_like[(None,)*k]` = `Tensor._op(GetItem, arr_like, …)` with `constant=None`: tracked — a view with
-creator and base whose `constant` is `True` iff the input is constant (else by dtype); untracked —
-`cls(op_out, constant=None)`: no creator, no base, `constant` by dtype alone -/
+/-- `Tensor._op(GetItem, arr_like, op_args=((None,)*k,), constant=arr_like.constant)`: tracked — a view with
+creator and base; untracked — `cls(op_out, constant=…)`: no creator, no base.  The input's `constant` flag is
+handed on explicitly in both modes -/
 def passView (track : Bool) (s : Src) : Except Err Res :=
-  (gate track s.dt (if track && s.ts.const then CArg.t else CArg.none)).map fun k =>
+  (gate track s.dt (if s.ts.const then CArg.t else CArg.f)).map fun k =>
     { ident := .shares, dt := s.dt, const := k, hasCreator := track
       hasGrad := track && s.ts.hasGrad, hasBase := track, extended := true }
 
